@@ -56,7 +56,7 @@ func TestC05(t *testing.T) {
 	r := vlib.Start(t, "C05")
 	defer r.Finish()
 	p := vlib.InstallPerturber()
-	r.Extra("rule", "generated multi-file models with cross-file references (valid) and rule-tagged mutants of them (invalid): baseline = MaxParallelism 1, sorted request order; "+
+	r.Extra("rule", "generated multi-file models with cross-file references (valid) and rule-tagged mutants of them (invalid), one case in seven with an import or a requested name the resolver cannot find: baseline = MaxParallelism 1, sorted request order; "+
 		"variants = MaxParallelism {2,3,4,8,16} x shuffled request orders and requested subsets x perturbation seeds/focus sites x repeats, with and without a caller-supplied fresh Symbols table, "+
 		"all under the race detector. Compared: success, and the deterministic encoding of every produced descriptor (requested files and everything reachable through imports). "+
 		"non-trivial = model with >=2 files; distinct = (model, variant)")
@@ -143,6 +143,18 @@ func TestC05(t *testing.T) {
 				names = append(names, n)
 			}
 			sort.Strings(names)
+		}
+		if i%7 == 6 {
+			// something the resolver cannot find: an import of one file, or one of the requested names
+			if rng.Bool() {
+				shape += "+missing-import"
+				victim := names[rng.Intn(len(names))]
+				src[victim] = gen.InjectImports(src[victim], []string{"nosuch/missing.proto"})
+			} else {
+				shape += "+missing-requested-file"
+				names = append(names, "nosuch/requested.proto")
+				sort.Strings(names)
+			}
 		}
 		prefix := fmt.Sprintf("k%d/", caseCtr.Add(1))
 		psrc, pnames := prefixSources(prefix, src, names)
